@@ -12,6 +12,7 @@ Three layers:
 -/
 import Dtn7.Model.Decoders
 import Dtn7.Lemmas.Cbor
+import Dtn7.Lemmas.Decoders
 import Dtn7.Gen.C04
 
 namespace Dtn7.Props.C04
@@ -185,5 +186,151 @@ theorem next_segment_head_expected : nextSegmentHead =
      "else if mtu > MaxSegmentMtu",
      "  mtu = MaxSegmentMtu",
      "var segFlags msgs.SegmentFlags"] := by decide
+
+/-! ## 2. Decoders: allocation accounting and termination
+
+`allocs (run d bs)` is the allocation log of decoder `d` on input `bs`: one entry `(requested, arrived)`
+per allocation whose size depends on a decoded number (also when the decoder ends in an error).
+`C = 1 MiB + 512` (cboring's pre-allocation limit, `bytes.MinRead`), `K = 128` (twice the largest
+element, append doubles). -/
+
+open Dtn7.Decoders.Lemmas in
+/-- **Administrative records / status reports** (`ReadAdministrativeRecord`): whatever the item count
+claims, nothing is requested beyond `C + K ·` bytes that have arrived. -/
+theorem alloc_bounded_adminrec (bs : Cbor.Bytes) :
+    ∀ p ∈ allocs (run adminRecord bs), p.1 ≤ C + K * p.2 :=
+  sound_adminRecord.log _ logOk_nil
+
+open Dtn7.Decoders.Lemmas in
+/-- **Discovery announcements** (`UnmarshalAnnouncements`, one UDP packet). -/
+theorem alloc_bounded_announcements (bs : Cbor.Bytes) :
+    ∀ p ∈ allocs (run announcements bs), p.1 ≤ C + K * p.2 :=
+  sound_announcements.log _ logOk_nil
+
+open Dtn7.Decoders.Lemmas in
+/-- **DTLSR and PRoPHET map blocks**. -/
+theorem alloc_bounded_dtlsr (bs : Cbor.Bytes) : ∀ p ∈ allocs (run dtlsr bs), p.1 ≤ C + K * p.2 :=
+  sound_dtlsr.log _ logOk_nil
+
+open Dtn7.Decoders.Lemmas in
+theorem alloc_bounded_prophet (bs : Cbor.Bytes) : ∀ p ∈ allocs (run prophet bs), p.1 ≤ C + K * p.2 :=
+  sound_prophet.log _ logOk_nil
+
+open Dtn7.Decoders.Lemmas in
+/-- **Endpoint IDs** (the text SSP goes through `cboring.ReadRawBytes`). -/
+theorem alloc_bounded_eid (bs : Cbor.Bytes) : ∀ p ∈ allocs (run eid bs), p.1 ≤ C + K * p.2 :=
+  sound_eid.log _ logOk_nil
+
+open Dtn7.Decoders.Lemmas in
+/-- **XFER_SEGMENT**: extension items are skipped unbuffered, the data goes through `ReadRawBytes`. -/
+theorem alloc_bounded_xfer_segment (bs : Cbor.Bytes) :
+    ∀ p ∈ allocs (run xferSegment bs), p.1 ≤ C + K * p.2 :=
+  sound_xferSegment.log _ logOk_nil
+
+open Dtn7.Decoders.Lemmas in
+/-- **SESS_INIT**: the node ID buffer is bounded by its 16 bit length field, extension items are skipped. -/
+theorem alloc_bounded_sess_init (bs : Cbor.Bytes) :
+    ∀ p ∈ allocs (run sessInit bs), p.1 ≤ C + K * p.2 :=
+  sound_sessInit.log _ logOk_nil
+
+open Dtn7.Decoders.Lemmas in
+/-- **The block array of a bundle**: for any primary / canonical block decoder that itself stays within
+the bound and whose successful blocks consume input, the indefinite-length block loop does too. -/
+theorem alloc_bounded_bundle_blocks {α β : Type} (primary : D β) (block : D α)
+    (hp : Sound primary) (hb : Sound block) (ha : Adv block) (bs : Cbor.Bytes) :
+    ∀ p ∈ allocs (run (bundleBlocks primary block) bs), p.1 ≤ C + K * p.2 :=
+  (sound_bundleBlocks hp hb ha).log _ logOk_nil
+
+open Dtn7.Decoders.Lemmas in
+/-- **Termination on input-derived fuel** (`dec_total` is by construction: the decoders are total Lean
+functions). Every count-driven loop runs on fuel `remaining input + 1`; none of the decoders ever reports
+exhausted fuel, i.e. the number of iterations is bounded by the number of input bytes, whatever a count
+field says (2^64 − 1 included). -/
+theorem dec_never_out_of_fuel (bs : Cbor.Bytes) :
+    (run adminRecord bs).1 ≠ .error fuelErr ∧ (run announcements bs).1 ≠ .error fuelErr ∧
+    (run dtlsr bs).1 ≠ .error fuelErr ∧ (run prophet bs).1 ≠ .error fuelErr ∧
+    (run xferSegment bs).1 ≠ .error fuelErr ∧ (run sessInit bs).1 ≠ .error fuelErr :=
+  ⟨sound_adminRecord.nofuel _, sound_announcements.nofuel _, sound_dtlsr.nofuel _, sound_prophet.nofuel _,
+   sound_xferSegment.nofuel _, sound_sessInit.nofuel _⟩
+
+open Dtn7.Decoders.Lemmas in
+/-- The same for the block loop of a bundle and for any count-driven loop over an advancing element. -/
+theorem loops_never_out_of_fuel {α β : Type} (primary : D β) (block : D α) (elem : D α) (esz n : Nat)
+    (hp : Sound primary) (hb : Sound block) (ha : Adv block) (he : Sound elem) (hae : Adv elem) (hk : 2 * esz ≤ K)
+    (bs : Cbor.Bytes) :
+    (run (bundleBlocks primary block) bs).1 ≠ .error fuelErr ∧ (run (repeatN elem esz n) bs).1 ≠ .error fuelErr :=
+  ⟨(sound_bundleBlocks hp hb ha).nofuel _, (sound_repeatN elem esz n he hae hk).nofuel _⟩
+
+/-- The model's CBOR head reader is the shared model of `cboring.ReadMajors`. -/
+theorem head_is_decHead (s : St) :
+    (head s).1 = (Cbor.decHead s.rest).map (fun r => (r.1, r.2.1)) ∧
+    (∀ m n r, Cbor.decHead s.rest = .ok (m, n, r) → (head s).2.rest = r) :=
+  Dtn7.Decoders.Lemmas.head_decHead s
+
+/-! Witnesses: the code before the repairs falsifies the bound with inputs of a few bytes. -/
+
+/-- D8: a status report announcing 2^40 items — `make([]BundleStatusItem, n)` requested 24·2^40 bytes
+after 10 bytes had arrived. -/
+theorem alloc_bounded_status_report_old_witness :
+    ¬ ∀ p ∈ allocs (run statusReportOld [0x84, 0x9B, 0, 0, 1, 0, 0, 0, 0, 0]), p.1 ≤ C + K * p.2 := by decide
+
+/-- D10: an XFER_SEGMENT header announcing 2^32 − 1 bytes of extension items. -/
+theorem alloc_bounded_xfer_segment_old_witness :
+    ¬ ∀ p ∈ allocs (run xferSegmentOld [1, 3, 0, 0, 0, 0, 0, 0, 0, 7, 0xFF, 0xFF, 0xFF, 0xFF]), p.1 ≤ C + K * p.2 := by
+  decide
+
+/-! Non-vacuity: the decoders accept real messages, and their logs are not empty. -/
+example : ((run adminRecord [0x82, 0x01, 0x84, 0x82, 0x82, 0xF5, 0x00, 0x81, 0xF4, 0x05, 0x82, 0x01, 0x00,
+    0x82, 0x00, 0x00]).1.toOption.map (fun r => (r.items.length, r.reason))) = some (2, 5) := by decide
+example : allocs (run adminRecord [0x82, 0x01, 0x84, 0x82, 0x82, 0xF5, 0x00, 0x81, 0xF4, 0x05, 0x82, 0x01, 0x00,
+    0x82, 0x00, 0x00]) = [(96, 9), (48, 7)] := by decide
+example : ((run xferSegment [1, 3, 0, 0, 0, 0, 0, 0, 0, 7, 0, 0, 0, 0, 0, 0, 0, 0, 0, 0, 0, 2, 9, 9]).1.toOption.map
+    (fun x => x.data)) = some [9, 9] := by decide
+example : allocs (run xferSegment [1, 3, 0, 0, 0, 0, 0, 0, 0, 7, 0, 0, 0, 0, 0xFF, 0, 0, 0, 0, 0, 0, 2]) = [] := by decide
+
+/-! ## 3. The sender side: sizes a peer declares during session setup -/
+
+/-- **`negotiated_mtu_ok`**: a segment size taken from a peer's SESS_INIT is at least 1 and at most
+`MaxSegmentMtu`; a Segment MRU of zero fails the session. -/
+theorem negotiated_mtu_ok (peerMru m : Nat) (h : negotiate peerMru = .ok m) : 1 ≤ m ∧ m ≤ Decoders.maxSegmentMtu :=
+  Dtn7.Decoders.Lemmas.negotiate_ok peerMru m h
+
+/-- D11: the code before the repair handed any value on, 0 and 2^64 − 1 included. -/
+theorem negotiated_mtu_old_witness :
+    ¬ (∀ v m, negotiateOld v = .ok m → 1 ≤ m ∧ m ≤ Decoders.maxSegmentMtu) := by
+  intro h
+  have := h 0 0 rfl
+  omega
+
+/-- `NextSegment` applies the same check to whatever it is handed. -/
+theorem segment_buffer_ok (mtu m : Nat) (h : segmentBuffer mtu = .ok m) : 1 ≤ m ∧ m ≤ Decoders.maxSegmentMtu :=
+  Dtn7.Decoders.Lemmas.segmentBuffer_ok mtu m h
+
+/-- **`nextSegment_progress`**: with a segment size ≥ 1 every segment takes between 1 and `mtu` bytes
+from the stream … -/
+theorem nextSegment_progress (la st : Bool) (rest : List UInt8) (mtu : Nat) (hm : 1 ≤ mtu) (sg : Tcpcl.Seg)
+    (r : List UInt8) (h : Tcpcl.nextSegment la st rest mtu = .seg sg r) :
+    r.length < rest.length ∧ 1 ≤ sg.data.length ∧ sg.data.length ≤ mtu :=
+  Dtn7.Decoders.Lemmas.nextSegment_progress la st rest mtu hm sg r h
+
+/-- … and the end of the transfer is reported exactly when nothing is left. -/
+theorem nextSegment_ends (la st : Bool) (rest : List UInt8) (mtu : Nat)
+    (h : Tcpcl.nextSegment la st rest mtu = .eof) : rest = [] :=
+  Dtn7.Decoders.Lemmas.nextSegment_eof la st rest mtu h
+
+/-- **No spinning, no peer-sized buffers**: whatever segment size `Send` is handed, it emits at most one
+segment per byte of the bundle, every segment carries between 1 and `MaxSegmentMtu` bytes, and together
+they are the bundle. -/
+theorem send_segments_bounded (mtu : Nat) (data : List UInt8) (segs : List Tcpcl.Seg)
+    (h : sendSegments mtu data = .ok segs) :
+    segs.length ≤ data.length ∧ (∀ sg ∈ segs, 1 ≤ sg.data.length ∧ sg.data.length ≤ Decoders.maxSegmentMtu) ∧
+      Tcpcl.concatData segs = data :=
+  Dtn7.Decoders.Lemmas.sendSegments_spec mtu data segs h
+
+example : (negotiate (2 ^ 64 - 1)).toOption = some 1048576 := by decide
+example : (negotiate 23).toOption = some 23 := by decide
+example : (negotiate 0).toOption = none := by decide
+example : (sendSegments 2 [1, 2, 3]).toOption.map (·.length) = some 2 := by decide
+example : (sendSegments 0 [1, 2, 3]).toOption = none := by decide
 
 end Dtn7.Props.C04
